@@ -310,8 +310,10 @@ def r7(ctx):
     keep = None
     mod = ctx.ix.module(TAGGING)
     if rets:
-        p = mod.parent[rets[0]]
-        keep = p.test if isinstance(p, ast.If) else None
+        # the condition under which the job file is handed to the parent (if/else, or a guard that cleans up and returns None before)
+        keep = reach_expr(g.body, rets[0])
+        if isinstance(keep, ast.Constant):
+            keep = None
     cnt = None
     if keep is not None and len(names_in(keep)) == 1:
         cnt = next(iter(names_in(keep)))
@@ -364,7 +366,7 @@ def r7(ctx):
     ctx.emit('C05-R7', ok, BTM, mg[0] if mg else f, f'merge input = {src(lst[0].value) if lst else None} (header BAM + every job BAM)', key='merge-input')
     # task fields
     gt = ctx.fn(TAGGING, 'generate_tasks')
-    d = [x for x in walk_no_nested(gt) if isinstance(x, ast.Dict)]
+    d = [x for x in ast.walk(gt) if isinstance(x, ast.Dict)]      # also inside a nested generator function
     keys = {k.value for x in d for k in x.keys if isinstance(k, ast.Constant)}
     params = {a.arg for a in t.args.args}
     ok = {'contig', 'start', 'end', 'fetch_start', 'fetch_end'} <= keys and keys <= params
